@@ -155,7 +155,10 @@ def case_lifecycle(kind: int) -> Optional[str]:
             ready.set()
             done.wait(20)
 
-        greenlet.greenlet(body).switch()
+        if kind == 3:
+            body()  # the thread's MAIN greenlet (it has no parent), running there
+        else:
+            greenlet.greenlet(body).switch()
 
     t = threading.Thread(target=thread_main, daemon=True)
     t.start()
@@ -182,7 +185,7 @@ def _shard(sh: Dict[str, Any]) -> Dict[str, Any]:
         if mode == 2:
             if N != 1:
                 e.assume(False)
-            k = e.choice("lifecycle", 3)
+            k = e.choice("lifecycle", 4)
             why = case_lifecycle(k)
             case = {"mode": 2, "kind": k}
         else:
@@ -213,7 +216,7 @@ def run(rep: Any, tier: str, seed: int) -> None:
     N = 3 if tier == "quick" else 4
     D = 2 if tier == "quick" else 3
     rep.bounds = {"parent chain": f"1..{N} nested greenlets", "call depth per greenlet": f"0..{D}", "asker": ["main greenlet (outside)", "the target itself", "a descendant, 0..1 calls deeper"],
-                  "lifecycle": ["unstarted", "dead", "running in another thread"]}
+                  "lifecycle": ["unstarted", "dead", "child greenlet running in another thread", "main greenlet of another thread running there"]}
     rep.outside = ["greenback await_ bridges (need a Trio task with a portal; same reasons as C14)", "PyPy greenlets", "chains deeper than the bound"]
     rep.assumptions = ["low solver leverage: finite scenario product certified complete by the solver"]
     res = par.run_shards("harness.c15", "_shard", [{"nglets": n, "maxdepth": D} for n in range(1, N + 1)])
